@@ -10,6 +10,7 @@ META = {
         "(2) the DAP byte writer is a read-modify-write of the same aligned word: in each loop iteration write_memory(a, v) is preceded by read_memory(a', word) with a and a' the same expression, and v is data-dependent on the bytes just read; "
         "(3) the buffer handed to the disassembler is the one fetched from the debuggee after breakpoint bytes were replaced by their saved originals, and the masking index is strictly inside the buffer; "
         "(4) set_register_value is read-modify-write of the focused thread's register file (current -> update -> persist on the same pid)."
+        " Also: memory reads fetch word-aligned words only (never cross into the next page)."
     ),
     "not_decided": "byte-exactness of reads/writes at runtime, tail handling arithmetic of read_memory_by_pid on runtime lengths, setVariable serialisation of values (value-level)",
     "assumptions": ["x86-64 word size 8; ptrace PEEK/POKE word granularity"],
